@@ -335,6 +335,10 @@ def classify(mismatches, byid):
     for m in pending:
         w, changed = seqgen.wrap_binders(byid[m["id"]]["ast"])
         if changed:
+            try:
+                seqast.render(w)
+            except ValueError:      # (a generic function of the corpus: its type variables cannot be rendered)
+                continue
             wrapped[m["id"]] = w
     real = run_real([{"id": i, "src": seqast.render(w)} for i, w in wrapped.items()]) if wrapped else {}
     variants = []
